@@ -393,3 +393,33 @@ let judge_c02 = judge_queue J02
 let judge_c06 = judge_queue J06
 let judge_c08 = judge_queue J08
 let judge_c09 = judge_queue J09
+
+
+(* ---- C10: crashes and failed writes. The steps cut short are judged like ordinary deliveries by the
+   counter oracles (C03: a strict device's recorded counters strictly increase; C07: a (session key,
+   downlink counter) pair is never used twice), and a DevNonce that led to a join-accept is never
+   honoured again while the nonce check is on. ---- *)
+let as_rx (st : step) = match st.ev with Crash (rx, an, na, _, _) -> { st with ev = Rx (rx, an, na) } | _ -> st
+let judge_nonce_once (steps : step list) : string =
+  let verdict = ref "ok" in
+  let seen : (string, unit) Hashtbl.t = Hashtbl.create 8 in
+  List.iter (fun st ->
+    match st.ev with
+    | Rx (rx, _, _) when not st.pre.s_cfg.cfg_disable_nonce_check ->
+      (match split_obs st.impl_obs with
+       | Some (ds, _, _) ->
+         let accepts = List.filter (fun dstr -> let raw = bytes_of_hex (List.hd (String.split_on_char ':' dstr)) in
+                                     match raw with b0 :: _ -> int_of_n b0 / 32 = 1 && List.length raw = 17 | [] -> false) ds in
+         if accepts <> [] && List.length rx.rx_raw = 23 then begin
+           let key = hex_of_bytes (List.filteri (fun i _ -> i >= 9 && i <= 18) rx.rx_raw) in   (* DevEUI | DevNonce *)
+           if Hashtbl.mem seen key then verdict := "bad:devnonce-honoured-twice" else Hashtbl.replace seen key ()
+         end
+       | None -> ())
+    | _ -> ()) steps;
+  !verdict
+let judge_c10 (euis : n list) (steps : step list) : string =
+  let steps = List.map as_rx steps in
+  let v = judge_c03 euis steps in
+  if v <> "ok" then v else
+  let v = judge_c07 euis steps in
+  if v <> "ok" then v else judge_nonce_once steps
